@@ -180,7 +180,7 @@ class Outcome:
                 hs.append(t == t)
         if atomize and T.is_z3(goal):
             hs, goal = atomize_transcendentals(hs, goal)
-        self.V.record(self, name, hs, goal, kind, budget_ms)
+        self.V.record(self, name, hs, goal, kind, budget_ms, generalised=bool(atomize))
 
     def prove_from(self, name, hyps, goal, kind='lemma', budget_ms=None, atomize=False):
         """Prove goal from an explicit (smaller) hypothesis list only -- sound, and keeps hard lemmas quantifier free.
@@ -189,7 +189,7 @@ class Outcome:
         hs = [T.to_bool_term(h) for h in hyps if not (isinstance(h, bool) and h)]
         if atomize and T.is_z3(goal):
             hs, goal = atomize_all(hs, goal)
-        self.V.record(self, name, hs, goal, kind, budget_ms)
+        self.V.record(self, name, hs, goal, kind, budget_ms, generalised=True)
 
     def prove_all(self, clauses):
         for nm, g in clauses:
@@ -478,7 +478,7 @@ class Verifier:
         return self.run(nop, setup)
 
     # ------------------------------------------------------------------------------------------- recording
-    def record(self, out, name, hyps, goal, kind, budget_ms, backend=None):
+    def record(self, out, name, hyps, goal, kind, budget_ms, backend=None, generalised=False):
         full = '%s/%s/%s/%s/%s' % (self.unit['prop'], self.unit['name'], self.case_tag or '-', out.path, name)
         t0 = time.time()
         fails = self.fail_counts.get(name, 0)
@@ -494,8 +494,11 @@ class Verifier:
                    time_s=round(res['time_s'], 4), n_hyps=len(hyps), reason=res['reason'], path=out.path, function=out.fn)
         if res['verdict'] != 'proved':
             self.fail_counts[name] = fails + 1
-        if res.get('candidate'):
+        if res.get('candidate') or (generalised and res['verdict'] == 'refuted'):
+            # a counter-model of a GENERALISED query (function applications replaced by atoms / reduced hypothesis list) is
+            # only a candidate: it counts as a violation only if a replay on the real code confirms it
             rec['candidate'] = True
+            res = dict(res, candidate=True)
         if getattr(out, 'replay_info', None):
             rec['replay_info'] = out.replay_info
         if res['verdict'] == 'refuted':
